@@ -180,6 +180,13 @@ pub fn check(m: &Mat, p: &mut Probe) -> Check {
     Ok(())
 }
 
+/// fuzz-target body: a byte tape decoded into a matrix with r <= n
+pub fn fuzz_bytes(data: &[u8]) -> Check {
+    let (h, _) = mat_from_bytes(data, 14, true);
+    let mut p = Probe::default();
+    guarded_check(|| check(&h, &mut p))
+}
+
 pub fn property() -> Property {
     Property {
         id: "C09",
